@@ -2550,19 +2550,31 @@ func (c *streamableClientConn) handleSSE(ctx context.Context, requestSummary str
 		}
 
 		// The stream was interrupted or ended by the server. Attempt to reconnect.
-		newResp, err := c.connectSSE(ctx, lastEventID, reconnectDelay, false)
-		if err != nil {
-			// If the client didn't cancel this request, any failure to execute it
-			// breaks the logical MCP session.
-			if ctx.Err() == nil {
-				// All reconnection attempts failed: fail the connection.
-				c.fail(fmt.Errorf("%s: failed to reconnect (session ID: %v): %v", requestSummary, c.sessionID, err))
+		for {
+			newResp, err := c.connectSSE(ctx, lastEventID, reconnectDelay, false)
+			if err != nil {
+				// If the client didn't cancel this request, any failure to execute it
+				// breaks the logical MCP session.
+				if ctx.Err() == nil {
+					// All reconnection attempts failed: fail the connection.
+					c.fail(fmt.Errorf("%s: failed to reconnect (session ID: %v): %v", requestSummary, c.sessionID, err))
+				}
+				return
 			}
-			return
-		}
 
-		resp = newResp
-		if err := c.checkResponse(ctx, requestSummary, resp); err != nil {
+			resp = newResp
+			err = c.checkResponse(ctx, requestSummary, resp)
+			if err == nil {
+				break
+			}
+			// A transient status (502, 503, ...) on a reconnection attempt is
+			// retried like a transport error, within the same retry budget.
+			if isTransientHTTPStatus(resp.StatusCode) && ctx.Err() == nil {
+				retriesWithoutProgress++
+				if retriesWithoutProgress <= c.maxRetries {
+					continue
+				}
+			}
 			c.fail(err)
 			return
 		}
